@@ -183,7 +183,26 @@ pub fn judge(property: &str, scn: &Scenario, rec: &RunRecord) -> Judgement {
                         continue;
                     }
                     OpResult::Budget => {
-                        bump(&mut cnt, "inconclusive_step_budget");
+                        // A query that can only end by its time-out (10^9 goal attempts, no answer)
+                        // whose solve/solve_all is still running when the run's budget of goal
+                        // attempts — dozens of times what the limit plus any delay of the timer
+                        // thread can account for — is used up: the call does not return.
+                        if class == QueryClass::Diverges && !matches!(o.op, Op::Next { .. }) {
+                            report(
+                                "C23",
+                                "no_return",
+                                o,
+                                "the time-out message, once the limit is exceeded".into(),
+                                format!("still searching after {} goal attempts ({} us of virtual time)", o.steps, d),
+                                format!("own timer: #{}; thunks that ran during the call: {:?}; stop flag now: {}", o.call_id, o.thunks, o.flag_on_return),
+                            );
+                        } else {
+                            bump(&mut cnt, "inconclusive_step_budget");
+                        }
+                        continue;
+                    }
+                    OpResult::Backstop => {
+                        bump(&mut cnt, "inconclusive_backstop");
                         continue;
                     }
                     _ => {}
